@@ -732,6 +732,9 @@ def targets(quick, seed):
             ts.append({"kind": "getrandstr", "charset": cs, "count": c})
             if N in (2, 16, 64, 94) and c in (1, 2, 3, 8, 16):
                 ts.append({"kind": "getrandstr", "charset": cs.encode("ascii"), "count": c})
+    # sizes beyond the usual ones (long tokens, unbounded text salts): chunk boundaries of any batching scheme
+    for N, c in ((2, 65), (2, 127), (2, 128), (2, 129), (16, 128), (16, 200), (64, 128), (64, 192), (94, 256), (16, 1024)):
+        ts.append({"kind": "getrandstr", "charset": HASH64_CHARS if N == 64 else base94[:N], "count": c})
     ts.append({"kind": "getrandstr", "charset": bytes(range(256)), "count": 2})
     ts.append({"kind": "getrandstr", "charset": bytes(range(256)), "count": 16})
     for name in salted_hashers():
